@@ -940,9 +940,14 @@ def _reshape_discharge(scope, ff, node, operand, depth=0, bind=None):
     fn = ff.fn
     # an explicit format check of the element count / shape of the operand
     if isinstance(operand, ast.Name) and depth == 0:
-        g = ff.len_guard(node, operand.id, size_attr=True)
-        if g is not None:
-            return True, "D-guard: `%s` fixes the size" % norm(g.test)[:60]
+        # ... or of the object it was decoded from (img.size for
+        # np.asarray(img)): the arithmetic inside the guard is not verified
+        # (declared undecided clause), the guard's presence is
+        for nm_ in sorted(closure_names(fn.node, [operand.id], ff.defs)):
+            g = ff.len_guard(node, nm_, size_attr=True)
+            if g is not None:
+                return True, "D-guard: `%s` fixes the size" \
+                    % norm(g.test)[:60]
     # direct frombuffer(...) operand or name defined by one
     exprs = [operand]
     seen = set()
